@@ -20,6 +20,7 @@ import TboxModel.C19.Md5SpecProofs
 import TboxModel.C19.AesProofs
 import TboxModel.C19.AesSpecProofs
 import TboxModel.C19.Round7Proofs
+import TboxModel.C19.Round8Proofs
 namespace Tbox.C19
 set_option maxRecDepth 100000
 
@@ -683,13 +684,18 @@ theorem C19_b64_decode_onto (pre x : List UInt8) (hx : x ≠ []) :
   obtain ⟨e, h1, _, _, _, _, h6⟩ := C19_b64_roundtrip x hx
   exact ⟨e, h1, by simp [B64.decodeVecOnto, h6]⟩
 
-/-- the AES object keeps nothing but the round keys, and `setKey` / the constructor overwrite all of them: after `setKey(key)` on ANY
-object (whatever key it had, including the uninitialised one of `AES(nullptr)`) `cipher` / `invcipher` are FIPS-197 under `key` -/
-theorem C19_aes_setkey (o : Aes.Obj) (key block : List UInt8) (hk : key.length = 16) (hb : block.length = 16) :
-    (o.setKey Aes.gen key).cipher Aes.gen block = Spec.aesCipher key block
-      ∧ (o.setKey Aes.gen key).invCipher Aes.gen block = Spec.aesInvCipher key block
-      ∧ (Aes.Obj.new Aes.gen key).cipher Aes.gen block = Spec.aesCipher key block :=
-  ⟨(C19_aes_eq_spec key block hk hb).1, (C19_aes_eq_spec key block hk hb).2, (C19_aes_eq_spec key block hk hb).1⟩
+/-- `C19_aes_setkey` (round 8: stated on HISTORIES of one object). The AES object keeps nothing but the round keys and `setKey` / the
+constructor overwrite all of them: after ANY sequence of `setKey` calls `ks` followed by `setKey(key)` on ANY object (whatever it held:
+another key, the transpose of `key`, a round key of an earlier key, the uninitialised `w` of `AES(nullptr)`), `cipher` / `invcipher` are
+FIPS-197 under the LAST key. (The earlier keys are unrestricted; the last one and the block are 16 bytes.) -/
+theorem C19_aes_setkey (o : Aes.Obj) (ks : List (List UInt8)) (key block : List UInt8) (hk : key.length = 16) (hb : block.length = 16) :
+    ((ks ++ [key]).foldl (Aes.Obj.setKey Aes.gen) o).cipher Aes.gen block = Spec.aesCipher key block
+      ∧ ((ks ++ [key]).foldl (Aes.Obj.setKey Aes.gen) o).invCipher Aes.gen block = Spec.aesInvCipher key block
+      ∧ (Aes.Obj.new Aes.gen key).cipher Aes.gen block = Spec.aesCipher key block := by
+  have h := Aes.obj_cipher _ key block (Aes.setKeys_last o ks key) hk hb
+  exact ⟨h.1, h.2, (C19_aes_eq_spec key block hk hb).1⟩
+
+example : ([[1, 2, 3], List.replicate 16 7] ++ [List.replicate 16 (9 : UInt8)]).length = 3 := by decide
 
 /-- `C19_url_port_range` (url.cpp:218, int → uint16_t): what `StringToUrlHost` does with a decimal port text of value n, for EVERY
 digit string: n < 65536 ⇒ the port is n; 65536 ≤ n < 2^31 ⇒ ACCEPTED with the port reduced modulo 65536 (as coded: no range check);
@@ -718,12 +724,170 @@ theorem C19_url_port_roundtrip (p : Nat) (hp : p < 65536) : ∃ i, Url.stoi (Url
   obtain ⟨i, hi, hv⟩ := (C19_url_port_range (Url.decimal p) h1 h2).2.1 (by rw [h3]; exact hp)
   exact ⟨i, hi, by rw [hv, h3]⟩
 
-/-
--- OPEN: `C19_url_host_roundtrip` — `Url.parseHost (Url.hostToString h) = (true, h)` for every host value whose user / password / host
--- contain none of `@ : %` (they are printed unencoded), whose password is empty unless the user is non-empty, and whose port fits
--- 16 bits. The port part is proved (`C19_url_port_roundtrip`); the splitting at the first '@' / ':' is not proved in Lean. Both sides of
--- the equation are evaluated on every run (op `url.mkhost`, field rt=, including values outside the predicate, where rt=0 on both sides).
--- The path / parameter / query part of url.cpp is covered by property C12 (`C12_url_path_roundtrip`).
--/
+/-! ## 11. Round 8: histories on one object with inputs derived from its cached state (lesson g); URL host round trip -/
+
+/-- `C19_aes_history`: EVERY history of calls on ONE object — `setKey`, `cipher`, `invcipher` in any order and number, keys and blocks
+16 bytes — starting from `AES(k0)`, or from ANY object (e.g. `AES(nullptr)`) whose first call is `setKey(k0)`: the outputs are exactly
+those of the independent FIPS-197 definitions under the key installed LAST before each call. In particular it does not matter how a
+new key is related to what the object caches (equal to the old key, to the memory image of `w[0]` = its transpose, to any round key). -/
+theorem C19_aes_history (k0 : List UInt8) (ops : List Aes.Op) (hk : k0.length = 16) (hw : ∀ op ∈ ops, op.wf = true) :
+    (Aes.Obj.new Aes.gen k0).run Aes.gen ops = Aes.refRun Spec.aesCipher Spec.aesInvCipher k0 ops
+      ∧ ∀ o : Aes.Obj, o.run Aes.gen (.setKey k0 :: ops) = Aes.refRun Spec.aesCipher Spec.aesInvCipher k0 ops :=
+  ⟨Aes.run_ref ops _ k0 rfl hk hw, fun o => Aes.run_ref ops (o.setKey Aes.gen k0) k0 rfl hk hw⟩
+
+example : ∀ op ∈ [Aes.Op.enc (List.replicate 16 1), .setKey (List.replicate 16 2), .dec (List.replicate 16 3)], op.wf = true := by decide
+
+/-- `C19_aes_two_objects`: two AES objects used in turns share nothing — for EVERY interleaving of calls each object produces exactly
+the outputs of its own calls (which `C19_aes_history` equates with FIPS-197 under its own last key), whatever keys the other object
+was given in between -/
+theorem C19_aes_two_objects (s : List (Bool × Aes.Op)) (a b : Aes.Obj) :
+    Aes.outsOf false (Aes.runTwo Aes.gen a b s) = a.run Aes.gen (Aes.projOps false s)
+      ∧ Aes.outsOf true (Aes.runTwo Aes.gen a b s) = b.run Aes.gen (Aes.projOps true s) := Aes.runTwo_proj Aes.gen s a b
+
+/-- what the object caches, in the code's layout: `w[0]` read in memory order is the TRANSPOSE of the key, read column-wise it is the key -/
+theorem C19_aes_cached_key (o : Aes.Obj) (k : List UInt8) (ho : o.w = Aes.keyExpansion Aes.gen k) (hk : k.length = 16) :
+    o.memCol 0 = k ∧ o.memRow 0 = Aes.transpose k := Aes.memCol_zero o k ho hk
+
+/-- an "unchanged key? then skip the expansion" shortcut is a correct `setKey` when it compares in the right order
+(`w[0][r][c] == key[r + 4*c]`): on every object holding the expansion of some key the result is the expansion of the new key -/
+theorem C19_aes_setkey_skip_sound (o : Aes.Obj) (k key : List UInt8) (ho : o.w = Aes.keyExpansion Aes.gen k) (hk : k.length = 16) :
+    (o.setKeySkipCol Aes.gen key).w = Aes.keyExpansion Aes.gen key := Aes.setKeySkipCol_sound o k key ho hk
+
+/-- … and WRONG when it compares the memory image (`memcmp(w[0], key, 16)`, seeded change C19-6): on an object holding
+K1 = 00 01 … 0f, `setKey(transpose K1)` is skipped (the image of `w[0]` IS that key, and it differs from K1), so the object goes on
+encrypting under K1 — not FIPS-197 under the key the caller installed -/
+theorem C19_aes_setkey_skip_counterexample :
+    let k1 : List UInt8 := [0, 1, 2, 3, 4, 5, 6, 7, 8, 9, 10, 11, 12, 13, 14, 15]
+    let k2 : List UInt8 := [0, 4, 8, 12, 1, 5, 9, 13, 2, 6, 10, 14, 3, 7, 11, 15]
+    let blk : List UInt8 := List.replicate 16 0
+    (Aes.Obj.new Aes.gen k1).memRow 0 = k2 ∧ k2 ≠ k1
+      ∧ ((Aes.Obj.new Aes.gen k1).setKeySkipMem Aes.gen k2).cipher Aes.gen blk = Spec.aesCipher k1 blk
+      ∧ Spec.aesCipher k1 blk ≠ Spec.aesCipher k2 blk
+      ∧ ((Aes.Obj.new Aes.gen k1).setKey Aes.gen k2).cipher Aes.gen blk = Spec.aesCipher k2 blk := by
+  decide +kernel
+
+/-- `C19_crc_chain_seq`: a SEQUENCE of calls in which every seed is derived from the previous result. For every first seed, first
+piece and list of further pieces: seeding each `CalcCrc32` call with the COMPLEMENT of the previous result (each `CalcCrc16` call with
+the previous result itself) makes the last result the CRC of the concatenation; the sequence has one result per call. -/
+theorem C19_crc_chain_seq :
+    (∀ (seed : UInt32) (d : List UInt8) (ps : List (List UInt8)),
+        (Crc.seq32 seed d (ps.map (fun p => (Crc.Link.notPrev, p)))).getLast? = some (Spec.crc32 (d ++ ps.flatten) seed)) ∧
+    (∀ (seed : UInt16) (d : List UInt8) (ps : List (List UInt8)),
+        (Crc.seq16 seed d (ps.map (fun p => (Crc.Link.prev, p)))).getLast? = some (Spec.crc16 (d ++ ps.flatten) seed)) ∧
+    (∀ seed d r, (Crc.seq32 seed d r).length = r.length + 1) ∧ (∀ seed d r, (Crc.seq16 seed d r).length = r.length + 1) := by
+  refine ⟨?_, ?_, Crc.seq32_length, Crc.seq16_length⟩
+  · intro seed d ps; rw [← Crc.crc32_eq_bitwise]; exact Crc.seq32_chain seed d ps
+  · intro seed d ps; rw [← Crc.crc16_eq_bitwise]; exact Crc.seq16_chain seed d ps
+
+example : Crc.seq32 0xffffffff [0x31] [(.notPrev, [0x32]), (.prev, []), (.zero, [0x33]), (.ones, [])] =
+    [Crc.crc32 [0x31] 0xffffffff, Crc.crc32 [0x31, 0x32] 0xffffffff, ~~~ Crc.crc32 [0x31, 0x32] 0xffffffff, Crc.crc32 [0x33] 0, 0] := by
+  decide +kernel
+
+/-- `C19_si_stream`: an encoding is self-delimiting. For EVERY 64-bit value and EVERY bytes that follow it in the same buffer (the next
+encoding, old contents, anything), parsing at the start of the encoding returns exactly (need, v) -/
+theorem C19_si_stream (v : Nat) (hv : v < 2 ^ 64) (rest : List UInt8) :
+    ∃ need out, SInt.dump v 10 = .ok (need, out) ∧ out.length = need ∧ SInt.parse (out ++ rest) = .ok (need, some v) := by
+  obtain ⟨need, _, h10, _, _, hfit⟩ := C19_si_roundtrip v 10 hv
+  obtain ⟨out, h1, h2, h3⟩ := hfit h10
+  exact ⟨need, out, h1, h2, SInt.parse_append out rest need v h3⟩
+
+/-- `C19_si_buffer`: dumping at an offset of a buffer that already holds data (`DumpScalableInteger(v, buf + off, size - off)`) and
+parsing at the same offset: for every buffer content, offset inside it and 64-bit value — with fewer than `need` bytes left the call
+returns 0 and the buffer is unchanged; otherwise exactly the `need` bytes at `off` are replaced, everything in front of and behind them
+is untouched, and `ParseScalableInteger(buf + off, size - off)` gives back (need, v) whatever lies behind. -/
+theorem C19_si_buffer (buf : List UInt8) (off v : Nat) (ho : off ≤ buf.length) (hv : v < 2 ^ 64) :
+    ∃ need, SInt.needBytes v = .ok need ∧
+      (buf.length - off < need → SInt.dumpAt buf off v = .ok (0, buf)) ∧
+      (need ≤ buf.length - off → ∃ buf', SInt.dumpAt buf off v = .ok (need, buf') ∧ buf'.length = buf.length
+          ∧ buf'.take off = buf.take off ∧ buf'.drop (off + need) = buf.drop (off + need)
+          ∧ SInt.parseAt buf' off = .ok (need, some v)) := by
+  obtain ⟨need, h1, h10, hn, hshort, hfit⟩ := C19_si_roundtrip v (buf.length - off) hv
+  refine ⟨need, hn, ?_, ?_⟩
+  · intro hc
+    unfold SInt.dumpAt
+    rw [hshort hc]
+    simp only [Res.bind_ok, Res.pure_eq]
+    unfold SInt.poke; simp
+  · intro hc
+    obtain ⟨out, e1, e2, e3⟩ := hfit hc
+    unfold SInt.dumpAt
+    rw [e1]
+    simp only [Res.bind_ok, Res.pure_eq]
+    refine ⟨_, rfl, SInt.poke_length buf off out (by omega), SInt.poke_take buf off out ho, ?_, ?_⟩
+    · have := SInt.poke_drop buf off out ho
+      rw [← e2, ← List.drop_drop, this, List.drop_left' rfl]
+    · unfold SInt.parseAt
+      rw [SInt.poke_drop buf off out ho]
+      exact SInt.parse_append out _ need v e3
+
+example : SInt.dumpAt [1, 2, 3, 4, 5] 1 16512 = .ok (3, [1, 0x80, 0x80, 0x00, 5]) ∧ SInt.parseAt [1, 0x80, 0x80, 0x00, 5] 1 = .ok (3, some 16512)
+    ∧ SInt.dumpAt [1, 2, 3, 4, 5] 3 16512 = .ok (0, [1, 2, 3, 4, 5]) := by decide +kernel
+
+/-- `C19_md5_two_objects`: two MD5 objects used in turns share nothing. For EVERY interleaving of steps on objects A and B whose own
+step sequences do not abort: the interleaved run does not abort, and each object yields exactly the digests of its own steps — hence
+(by `C19_md5_lifecycle` and `C19_md5_eq_spec`) RFC 1321 of its own updates, whatever the other object was fed in between. -/
+theorem C19_md5_two_objects (P : Md5.Params) (s : List Md5.Step2) (a b : Md5.Obj)
+    (ha : (Md5.runScript P a (Md5.proj false s)).2 = false) (hb : (Md5.runScript P b (Md5.proj true s)).2 = false) :
+    (Md5.runTwo P a b s).2 = false
+      ∧ Md5.digestsOf false (Md5.runTwo P a b s).1 = (Md5.runScript P a (Md5.proj false s)).1
+      ∧ Md5.digestsOf true (Md5.runTwo P a b s).1 = (Md5.runScript P b (Md5.proj true s)).1 :=
+  Md5.runTwo_proj P s a b ha hb
+
+example : (Md5.runScript Spec.md5Params (Md5.Obj.new Spec.md5Params) (Md5.proj false [(false, some [0x61]), (true, some [0x62]), (false, none)])).2 = false := by
+  decide +kernel
+
+/-- `C19_b64_decode_into`: decoding into a buffer that already holds data (e.g. the previous output). For EVERY old content and EVERY
+text: the call returns r ≤ capacity, the first r bytes are the decoded bytes (the same as decoding into a fresh buffer: the result does
+not depend on what the buffer held), and every byte behind them keeps its old value -/
+theorem C19_b64_decode_into (old s : List UInt8) :
+    ∃ r buf, B64.decodeInto old s = .ok (r, buf) ∧ r ≤ old.length ∧ buf.length = old.length
+      ∧ B64.decodeBuf s old.length = .ok (r, buf.take r) ∧ buf.drop r = old.drop r := by
+  obtain ⟨n, out, h1, h2, h3, _⟩ := C19_b64_bounds s old.length
+  unfold B64.decodeInto
+  rw [h1]
+  simp only [Res.bind_ok, Res.pure_eq]
+  refine ⟨n, _, rfl, h2, by simp; omega, ?_, ?_⟩
+  · rw [List.take_left' h3]
+  · rw [h3, List.drop_left' h3]
+
+example : B64.decodeInto [1, 2, 3, 4] [81, 85, 73, 61] = .ok (2, [65, 66, 3, 4]) := by decide +kernel
+
+/-- `C19_url_host_roundtrip` (closes the former OPEN): `StringToUrlHost (UrlHostToString h)` returns true and gives back exactly `h`,
+for EVERY host value that is well-formed (`Url.Host.wf`, decidable): user / password / host contain none of `% @ :` (they are printed
+unencoded), a password needs a user, the port fits `uint16_t`. (Property C12 proves the same law on its own model of url.cpp,
+`C12_url_host_roundtrip`, where the tokens must in addition be free of '/' because there the host is cut out of an absolute URL;
+both models are compared with the real `StringToUrlHost` on every run of their checks.) -/
+theorem C19_url_host_roundtrip (h : Url.Host) (hw : h.wf = true) : Url.parseHost (Url.hostToString h) = (true, h) :=
+  Url.parseHost_print {} h hw
+
+/-- `C19_url_host_reuse` (lesson g: the state is what the output object already holds; after fix C19-09): the same round trip into a
+RE-USED `Url::Host` object — whatever user / password / host / port it held from an earlier parse, after
+`StringToUrlHost (UrlHostToString h, obj)` it holds exactly `h` -/
+theorem C19_url_host_reuse (old h : Url.Host) (hw : h.wf = true) : Url.parseHostInto old (Url.hostToString h) = (true, h) :=
+  Url.parseHost_print old h hw
+
+/-- the code as found kept the OLD user and password when the new text has no '@': parsing "h" into an object that had parsed
+"u:p@x:1" before answered true and left user "u", password "p" in it (replay: corpus/C19/10-url-host-reused-object.ops). On a fresh
+object both variants agree. -/
+theorem C19_url_host_reuse_orig_counterexample :
+    Url.parseHostIntoOrig ⟨[117], [112], [120], 1⟩ [104] = (true, ⟨[117], [112], [104], 0⟩)
+      ∧ Url.parseHostInto ⟨[117], [112], [120], 1⟩ [104] = (true, ⟨[], [], [104], 0⟩)
+      ∧ Url.hostToString ⟨[], [], [104], 0⟩ = [104] := by decide +kernel
+
+theorem C19_url_host_fresh_same (s : List UInt8) : Url.parseHostIntoOrig {} s = Url.parseHostInto {} s := by
+  unfold Url.parseHostIntoOrig Url.parseHostInto Url.parseHostIntoW Url.parseHostUserW
+  cases Url.find 64 s <;> rfl
+
+example : (Url.Host.mk [117] [112, 32, 119] [104, 46, 120] 8443).wf = true := by decide
+
+/-- every clause of `Url.Host.wf` is needed: a user with '@' ("a@b@h" reads back as user "a", host "b@h"); a host with ':' (what follows
+is taken for the port, `std::stoi` refuses it); a password without a user is not printed; '%' is printed raw but decoded when read
+("%41" comes back as "A"); a port outside `uint16_t` is reduced modulo 65536 -/
+theorem C19_url_host_roundtrip_counterexample :
+    Url.parseHost (Url.hostToString ⟨[97, 64, 98], [], [104], 0⟩) = (true, ⟨[97], [], [98, 64, 104], 0⟩)
+      ∧ (Url.parseHost (Url.hostToString ⟨[], [], [104, 58, 120], 0⟩)).1 = false
+      ∧ Url.parseHost (Url.hostToString ⟨[], [112], [104], 0⟩) = (true, ⟨[], [], [104], 0⟩)
+      ∧ Url.parseHost (Url.hostToString ⟨[37, 52, 49], [], [104], 0⟩) = (true, ⟨[65], [], [104], 0⟩)
+      ∧ Url.parseHost (Url.hostToString ⟨[], [], [104], 65616⟩) = (true, ⟨[], [], [104], 80⟩) := by decide +kernel
 
 end Tbox.C19
